@@ -107,11 +107,11 @@ func flushCtx(start time.Time, off int64) (context.Context, context.CancelFunc) 
 }
 
 type fanoutObs struct {
-	start  int64
-	events []EventObs
-	failed bool
-	logged []bool
-	preErr string
+	start       int64
+	events      []EventObs
+	failed      bool
+	logged      []bool
+	preErr      string
 	payloadViol string // a payload (of any attempt of any integration) that is not the batch
 	payloads    int
 }
